@@ -220,4 +220,12 @@ def rule_parser_premise(ctx):
     ctx.instances[:] = [i for i in ctx.instances if not (i.rule == "R05.1" and i.key == "partial-fallback:Some" and i.status in ("violation", "known"))]
 
 
-RULES = [rule_await_table, rule_late_100, rule_edges_usable, rule_parser_premise]
+def rule_handshake_premise(ctx):
+    """the handshake takes place at all: the selector that routes SendRequest -> Await100 is `the request carries Expect:
+    100-continue` (independent of the method, so also with send_body_despite_method) and is cleared only by the handshake
+    itself - R09.6, shared"""
+    from . import rules_c09
+    rules_c09.rule_selectors(ctx)
+
+
+RULES = [rule_await_table, rule_late_100, rule_edges_usable, rule_parser_premise, rule_handshake_premise]
